@@ -884,7 +884,7 @@ impl Scenario for Chaos {
     fn runs(&self, tier: Tier) -> u64 {
         match tier {
             Tier::Quick => 240_000,
-            Tier::Thorough => 40_000_000,
+            Tier::Thorough => 16_000_000,
         }
     }
     fn declare(&self, cov: &mut Cov) {
